@@ -116,22 +116,16 @@ class BatchRepeatLinearOperator(LinearOperator):
     ) -> Union[Float[torch.Tensor, "... M C"], Float[torch.Tensor, "... M"]]:
         output_shape = _matmul_broadcast_shape(self.shape, rhs.shape)
 
-        # only attempt broadcasting if the non-batch dimensions are the same
-        if self.is_square:
-            if rhs.shape != output_shape:
-                rhs = rhs.expand(*output_shape)
+        # fold the repeated batches of the right-hand side into its columns, multiply by the base operator once,
+        # and unfold (works for non-square operators as well: only the rhs/result shapes are involved)
+        rhs_shape = torch.Size((*output_shape[:-2], *rhs.shape[-2:]))
+        if rhs.shape != rhs_shape:
+            rhs = rhs.expand(*rhs_shape)
 
-            rhs = self._move_repeat_batches_to_columns(rhs, output_shape)
-            res = self.base_linear_op._matmul(rhs)
-            res = self._move_repeat_batches_back(res, output_shape)
-            return res
-        else:
-            # otherwise, we will rely on base tensor broadcasting
-            res = self.base_linear_op._matmul(rhs)
-            if res.shape != output_shape:
-                res = res.expand(*output_shape)
-
-            return res
+        rhs = self._move_repeat_batches_to_columns(rhs, rhs_shape)
+        res = self.base_linear_op._matmul(rhs)
+        res = self._move_repeat_batches_back(res, output_shape)
+        return res
 
     def _move_repeat_batches_back(self, batch_matrix, output_shape):
         """
